@@ -145,18 +145,23 @@ def removeFirst {α} [BEq α] (l : List α) (x : α) : List α :=
 def subscriptionOf (s : St) (c : Member) : List Topic :=
   ((s.members.find? (·.id == c)).map (·.subs)).getD []
 
+/-- may partition `p` stay with consumer `c`? (it still exists and `c` is still subscribed to its topic) -/
+def keepFor (s : St) (c : Member) (p : TP) : Bool :=
+  alHas s.p2c p && (subscriptionOf s c).contains p.1
+
+/-- `_populate_partitions_to_reassign`, stated declaratively (equivalent to the Python loop when
+    every consumer occurs once in `current_assignment`, which `alSet` guarantees): every consumer
+    keeps the partitions that still exist and whose topic it still subscribes to; the others are
+    dropped from `current_assignment` and `current_partition_consumer`; kept partitions leave the
+    unassigned list; dropping a partition of a still-existing topic sets `revocation_required`. -/
 def populatePartitionsToReassign (s : St) : St :=
-  s.cur.foldl (fun st cp =>
-    let (c, ps) := cp
-    let st1 := ps.foldl (fun (acc : St × List TP) p =>
-        let (st, toRemove) := acc
-        if !alHas st.p2c p then (st, toRemove ++ [p])
-        else if !(subscriptionOf st c).contains p.1 then ({ st with revocation := true }, toRemove ++ [p])
-        else ({ st with unassigned := removeFirst st.unassigned p }, toRemove)) (st, [])
-    let (st, toRemove) := st1
-    toRemove.foldl (fun st p =>
-      { st with cur := alSet st.cur c (removeFirst (curOf st c) p), owner := alDel st.owner p }) st)
-    { s with unassigned := s.sortedParts }
+  let removed : List TP := s.cur.flatMap (fun cp => cp.2.filter (fun p => !keepFor s cp.1 p))
+  let kept : List TP := s.cur.flatMap (fun cp => cp.2.filter (fun p => keepFor s cp.1 p))
+  { s with
+    cur := s.cur.map (fun cp => (cp.1, cp.2.filter (fun p => keepFor s cp.1 p))),
+    owner := s.owner.filter (fun pc => !removed.contains pc.1),
+    unassigned := kept.foldl removeFirst s.sortedParts,
+    revocation := s.cur.any (fun cp => cp.2.any (fun p => alHas s.p2c p && !(subscriptionOf s cp.1).contains p.1)) }
 
 /-! ### partition movements -/
 
@@ -281,35 +286,45 @@ def balanceScore (cur : List (Member × List TP)) : Nat :=
     | a :: r => (r.map (fun b => if a ≥ b then a - b else b - a)).foldl (· + ·) 0 + go r
   go sizes
 
+/-- assign all unassigned partitions, then drop the partitions that cannot move from the work lists -/
+def assignUnassigned (s : St) : St :=
+  let s := s.unassigned.foldl (fun s p => if (consumersOf s p).isEmpty then s else assignPartition s p) s
+  let fixedParts := (s.p2c.map (·.1)).filter (fun p => !canPartitionParticipate s p)
+  { s with sortedParts := s.sortedParts.filter (fun p => !fixedParts.contains p),
+           unassigned := s.unassigned.filter (fun p => !fixedParts.contains p) }
+
+/-- set aside the consumers that are not subject to reassignment -/
+def setAsideFixed (s : St) : St × List (Member × List TP) :=
+  (s.c2p.map (·.1)).foldl (fun (acc : St × List (Member × List TP)) c =>
+    if !canConsumerParticipate acc.1 c then
+      ({ acc.1 with subs := removeFirst acc.1.subs c, cur := alDel acc.1.cur c }, acc.2 ++ [(c, curOf acc.1 c)])
+    else acc) (s, [])
+
+/-- first only the newly added partitions (unless something must be revoked), then all of them -/
+def reassignBoth (fuel : Nat) (s : St) : Option (St × Bool) :=
+  match (if !s.revocation then performReassignments fuel s s.unassigned false else some (s, false)) with
+  | none => none
+  | some (s1, _) =>
+    if s1.failed.isSome then some (s1, false) else performReassignments fuel s1 s1.sortedParts false
+
+/-- revert if the balance score did not improve; add the fixed consumers back -/
+def finishBalance (initializing : Bool) (preCur : List (Member × List TP)) (preOwner : List (TP × Member))
+    (fixedAsg : List (Member × List TP)) (s : St) (performed : Bool) : St :=
+  if s.failed.isSome then s else
+  let s := if !initializing && performed && decide (balanceScore s.cur ≥ balanceScore preCur)
+           then { s with cur := preCur, owner := preOwner } else s
+  fixedAsg.foldl (fun s cp => { s with cur := alSet s.cur cp.1 cp.2, subs := s.subs ++ [cp.1] }) s
+
 def balance (fuel : Nat) (s : St) : Option St :=
   let s := { s with subs := s.cur.map (·.1) }
   match mostSub s with
   | none => some { s with failed := some "ValueError:empty" }
   | some most =>
     let initializing := (curOf s most).isEmpty
-    let s := s.unassigned.foldl (fun s p => if (consumersOf s p).isEmpty then s else assignPartition s p) s
-    let fixedParts := (s.p2c.map (·.1)).filter (fun p => !canPartitionParticipate s p)
-    let s := { s with sortedParts := s.sortedParts.filter (fun p => !fixedParts.contains p),
-                      unassigned := s.unassigned.filter (fun p => !fixedParts.contains p) }
-    let (s, fixedAsg) := (s.c2p.map (·.1)).foldl (fun (acc : St × List (Member × List TP)) c =>
-        let (s, fx) := acc
-        if !canConsumerParticipate s c then
-          ({ s with subs := removeFirst s.subs c, cur := alDel s.cur c }, fx ++ [(c, curOf s c)])
-        else acc) (s, [])
-    let preCur := s.cur
-    let preOwner := s.owner
-    let r1 := if !s.revocation then performReassignments fuel s s.unassigned false else some (s, false)
-    match r1 with
+    let (s2, fixedAsg) := setAsideFixed (assignUnassigned s)
+    match reassignBoth fuel s2 with
     | none => none
-    | some (s, _) =>
-      if s.failed.isSome then some s else
-      match performReassignments fuel s s.sortedParts false with
-      | none => none
-      | some (s, performed) =>
-        if s.failed.isSome then some s else
-        let s := if !initializing && performed && balanceScore s.cur ≥ balanceScore preCur
-                 then { s with cur := preCur, owner := preOwner } else s
-        some (fixedAsg.foldl (fun s cp => { s with cur := alSet s.cur cp.1 cp.2, subs := s.subs ++ [cp.1] }) s)
+    | some (s4, performed) => some (finishBalance initializing s2.cur s2.owner fixedAsg s4 performed)
 
 /-! ### whole assignor -/
 
